@@ -162,6 +162,14 @@ fn step(w: &[&str], arena: &Arena) -> (String, Vec<String>) {
             if got != want {
                 fails.push(format!("find: got {} want {}", show_idx(got), show_idx(want)));
             }
+            // the method the language calls (`StringBuiltin::find`, a wrapper around the search): the same
+            // answer as a number, -1 for "not found" (seed C13-d1: a shortcut in the wrapper)
+            #[allow(clippy::cast_precision_loss)]
+            let as_number = want.map_or(-1.0, |v| v as f64);
+            let wrapped = StringBuiltin::find(&h, &n);
+            if wrapped.to_bits() != as_number.to_bits() {
+                fails.push(format!("find: the string method answers {wrapped}, the search {}", show_idx(want)));
+            }
             (show_idx(got), fails)
         }
         ["replace", h, f, t] => {
@@ -172,6 +180,10 @@ fn step(w: &[&str], arena: &Arena) -> (String, Vec<String>) {
             let want = h.replace(f.as_str(), t.as_str());
             if ob != want.as_bytes() {
                 fails.push(format!("replace: got {} want {}", util::hex(ob), util::hex(want.as_bytes())));
+            }
+            let wrapped = StringBuiltin::replace(&h, &f, &t, arena);
+            if wrapped.as_bytes() != want.as_bytes() {
+                fails.push(format!("replace: the string method answers {}, want {}", util::hex(wrapped.as_bytes()), util::hex(want.as_bytes())));
             }
             if !valid {
                 fails.push("replace: output is not valid UTF-8".to_string());
@@ -245,6 +257,16 @@ fn step(w: &[&str], arena: &Arena) -> (String, Vec<String>) {
             let ob = out.as_bytes();
             if std::str::from_utf8(ob).is_err() {
                 fails.push(format!("{op}: output is not valid UTF-8"));
+            }
+            // the Unicode definition, character by character (full, unconditional case mappings: one character
+            // may become up to three — seed C13-d2), and Unicode White_Space for trim
+            let want: String = match *op {
+                "upper" => s.chars().flat_map(char::to_uppercase).collect(),
+                "lower" => s.chars().flat_map(char::to_lowercase).collect(),
+                _ => s.trim_matches(char::is_whitespace).to_string(),
+            };
+            if ob != want.as_bytes() {
+                fails.push(format!("{op}: got {} want {}", util::hex(ob), util::hex(want.as_bytes())));
             }
             (util::hex(ob), fails)
         }
